@@ -328,6 +328,8 @@ func (in *cinterp) run(nodes []*cnode, e *cenv) {
 			}
 		case "for":
 			in.runFor(n, e)
+		case "wrap":
+			in.run(n.bodies[0], e)
 		case "cycle":
 			pos := in.cyc[n.id]
 			in.cyc[n.id] = pos + 1
@@ -542,11 +544,18 @@ func (g *c09Gen) body(depth int) []*cnode {
 
 func (g *c09Gen) node(depth int) *cnode {
 	r := g.r
-	k := r.Intn(14)
-	if depth <= 0 && (k == 2 || k == 3 || k == 6 || k == 7 || k == 8) {
+	k := r.Intn(16)
+	if depth <= 0 && (k == 2 || k == 3 || k == 6 || k == 7 || k == 8 || k >= 14) {
 		k = 0
 	}
 	switch k {
+	case 14, 15:
+		// constructs that are transparent for branching and looping (they bind an unrelated name or change nothing):
+		// forloop, Parentloop chains, cycles and ifchanged work through them
+		g.nextID++
+		n := &cnode{kind: "wrap", id: g.nextID, text: r.Pick([]string{"with", "with", "withold", "autoescape", "block"})}
+		n.bodies = [][]*cnode{g.body(depth - 1)}
+		return n
 	case 0:
 		return &cnode{kind: "text", text: r.Pick([]string{"a", "b", "[", "]", ",", " ", "x-", "é"})}
 	case 1:
@@ -716,6 +725,17 @@ func c09Src(nodes []*cnode) string {
 				sb.WriteString(" " + a.src)
 			}
 			sb.WriteString(" %}")
+		case "wrap":
+			switch n.text {
+			case "with":
+				sb.WriteString(fmt.Sprintf("{%% with unrelated%d=1 %%}", n.id) + c09Src(n.bodies[0]) + "{% endwith %}")
+			case "withold":
+				sb.WriteString(fmt.Sprintf("{%% with 1 as unrelated%d %%}", n.id) + c09Src(n.bodies[0]) + "{% endwith %}")
+			case "autoescape":
+				sb.WriteString("{% autoescape on %}" + c09Src(n.bodies[0]) + "{% endautoescape %}")
+			default:
+				sb.WriteString(fmt.Sprintf("{%% block wb%d %%}", n.id) + c09Src(n.bodies[0]) + "{% endblock %}")
+			}
 		case "for":
 			hdr := n.v1
 			if n.v2 != "" {
@@ -884,6 +904,11 @@ func c09Run(c *C) {
 	for _, t := range []string{"{% for", "{% if", "{% cycle", "{% ifchanged", "{% firstof", "{% ifequal", "{% ifnotequal", "{% empty", "{% elif", "reversed", "sorted", "Parentloop", " as cy", "silent"} {
 		if strings.Contains(src, t) {
 			c.Cover(strings.Trim(t, "{% "))
+		}
+	}
+	for _, t := range []string{"{% with", "{% autoescape", "{% block"} {
+		if strings.Contains(src, t) && strings.Contains(src, "{% for") {
+			c.Cover("loop_with_transparent_wrapper_" + strings.Trim(t, "{% "))
 		}
 	}
 	if strings.Contains(src, "{% for") || strings.Contains(src, "{% if") {
